@@ -32,12 +32,11 @@ BUDGET = {
 def cases(draw):
     spec = draw(models.model_specs(names=draw(st.sampled_from(["ident", "free"])), n_state=(1, 4), n_control=(0, 3),
                                    n_calib=(0, 2), n_sensors=(0, 1), n_readings=(1, 2), depth=2,
-                                   innovation=("none",)))
+                                   innovation=("none",), template="mixed"))
     n = len(spec["state"])
     inputs = []
-    for _ in range(4):
-        inputs.append({"point": draw(models.points(spec, dt=("pos", "neg"), extra_zero_dt=True)),
-                       "P": draw(ekf.spd(n))})
+    for pt in draw(models.point_sequences(spec, 5, dt=("pos", "neg"), extra_zero_dt=True)):
+        inputs.append({"point": pt, "P": draw(ekf.spd(n))})
     return {"model": spec, "inputs": inputs}
 
 
